@@ -552,6 +552,25 @@ theorem elabField_flatten (O : Oracles) (future : Bool) (name : String) (inOpt :
   simp [elabField, evTop, ev_flatten s ht hl hd, annField, isFieldObj_treeObj, isSclsObj_treeObj, gtli_flatten s hl hd,
     afterGtli, finishField, hasNoneOpt]
 
+theorem typingArg_treeObj (k : UKind) (l : List Obj) : typingArg (treeObj k l) = treeObj k l := by
+  unfold treeObj; split <;> rfl
+
+/-- One level further down: a union tree as the ARGUMENT of a one-argument collection, in the builtin (`list[T]`),
+    typing (`List[T]`) and typedpy (`Array[T]`) spelling - the collection of the flattened AnyOf. -/
+theorem coll_of_union_tree (c : Coll) (s : Sp) (ht : isUnionTree s = true) (hl : leavesOk tm s = true)
+    (hd : allDistinct (flatObjs tm s) = true) :
+    elaborateAnn tm (.pep585 c s) = .ok (some (c.ofDecl (.anyOf (flatAlts s))))
+    ∧ elaborateAnn tm (.typingG c s) = .ok (some (c.ofDecl (.anyOf (flatAlts s))))
+    ∧ elaborateAnn tm (.sub c s) = .ok (some (c.ofDecl (.anyOf (flatAlts s)))) := by
+  have hev := ev_flatten s ht hl hd
+  have hg := gtli_flatten s hl hd
+  have hgi : getItem tm (treeObj (nodeKind s) (flatObjs tm s)) = .ok (.anyOf (flatAlts s)) := getItem_of_gtli' hg
+  refine ⟨?_, ?_, ?_⟩
+  · simp [elaborateAnn, ev, hev, gtli, cbt_coll, gtliArgs_one _ hg, mkFromArgs, coll_head_ne_anyOf, mkItems_coll, someDecl]
+  · simp [elaborateAnn, ev, hev, typingArg_treeObj, gtli, cbt_coll, gtliArgs_one _ hg, mkFromArgs, coll_head_ne_anyOf,
+      mkItems_coll, someDecl]
+  · simp [elaborateAnn, ev, hev, hgi, mkItems_coll, gtli]
+
 /-- non-vacuity: `Union[Union[int, None], str]`, `Union[int, Union[None, str]]`, `Union[Optional[int], str]`, the PEP 604
     chain `int | None | str`, `int | (None | str)` and the mixed `Optional[int] | str` / `List[int] | None` (a `|` with a
     typing object) are union trees over distinct supported leaves; the first six have the same flattened alternatives
